@@ -140,6 +140,13 @@ def run_case_shards(prop_id, name, header, case_type, check_fn, cases, shard=250
             n_eval += cnt
             idx = [int(x.replace("%nat", "")) for x in re.split(r"[;\s]+", m.group(2).strip()) if x.strip()]
             failing.extend(k + i for i in idx)
+            if not idx and os.environ.get("VERIF_KEEP_WORK") != "1":
+                base = path[:-2]
+                for ext in (".v", ".vo", ".vok", ".vos", ".glob"):
+                    try: os.remove(base + ext)
+                    except OSError: pass
+                try: os.remove(os.path.join(d, "." + os.path.basename(base) + ".aux"))
+                except OSError: pass
     return n_eval, failing, errors
 
 def coq_eval(prop_id, name, body, imports="Puan.Plog Puan.Sem Puan.Corr", timeout=300):
